@@ -201,6 +201,8 @@ def r3_feature_order(ctx, rep, R='C11.R3'):
     loops = [n for n in ast.walk(fr.node) if isinstance(n, ast.For) and any(
         isinstance(c, ast.Call) and isinstance(c.func, ast.Attribute) and c.func.attr == 'global_setup'
         for c in ast.walk(n))]
+    from . import c03
+    c03.registers_everything(ctx, rep, R)
     rep.check(len(loops) == 1 and dotted(loops[0].iter) == 'self.features', R,
               'Runner.run calls global_setup in registration order',
               'global_setup is not called over self.features in order', key='feature-order:run',
